@@ -19,7 +19,9 @@ THEOREMS = ["C13_gate_sound", "C13_auth_sound", "C13_gate_unix_sound", "C13_gate
             "C13_gate_unix_never_reserved", "C13_gate_http_never_reserved", "C13_no_identity_commands",
             "C13_authorized_only_refuted", "C13_outside_known", "C13_read_commands_checked", "C13_served_outside_known",
             "C13_served_unix_outside_known", "C13_served_http_outside_known", "C13_grant_many_eq_fold",
-            "C13_revoke_many_eq_fold", "C13_dispatch_grant_many", "C13_grant_many_entry", "C13_revoke_many_entry"]
+            "C13_revoke_many_eq_fold", "C13_dispatch_grant_many", "C13_grant_many_entry", "C13_revoke_many_entry",
+            "C13_perm_commands_keep_active", "C13_grant_permission_keeps_active", "C13_revoke_permission_keeps_active",
+            "C13_dispatch_active_frame", "C13_never_reactivated"]
 RULE = ("histories of probe lines against one engine process each (auth ON): (a) the full role-set x "
         "permission-entry table and random grant/revoke/revoke-key sequences through AuthManager with "
         "can_read/can_write/is_admin after every step; (b) parse_auth / verify_signature / session-token lines "
@@ -33,6 +35,8 @@ RULE = ("histories of probe lines against one engine process each (auth ON): (a)
         "(g) REVOKE / GRANT of READ / WRITE on a type for role-holding users with and without an explicit entry, then "
         "every command kind over the type as the next request; proper signature prefixes of every length 1..63 for AUTH, "
         "inline, connection-scoped, header and unix forms; "
+        "(h) REVOKE KEY, then an administrative operation naming the dead account (GRANT / REVOKE single and multi-type, "
+        "manager calls, CREATE USER again, ...), then every authentication form, then restarts on the same directories; "
         "(d) every command kind under admin / reading / writing / no-role / reserved-name / unknown / revoked "
         "users through parse_command + dispatch_command.  A case is non-trivial when the implementation "
         "answered it (no ABORT/UNKNOWN); distinct by (kind, op, identity class, command kind, result)")
@@ -137,6 +141,9 @@ class Hist:
 
     def revkey(self, u):
         return self.add(f"auth_revkey {hx(u)}", op="revkey", u=u, show=f"revoke_key({u})")
+
+    def active(self, u):
+        return self.add(f"auth_active {hx(u)}", op="active", u=u, show=f"list_users: active flag of {u}")
 
     def perms(self, u):
         return self.add(f"auth_perms {hx(u)}", op="perms", u=u, show=f"get_permissions({u})")
@@ -794,6 +801,103 @@ def gen_rolerev(rng, tier, idx):
     return h
 
 
+# ------------------------------------------------------------------ (h) administration of a revoked account
+def gen_revadm(rng, tier, idx):
+    """REVOKE KEY u, then an administrative operation that names u (GRANT / REVOKE, one or several event types,
+    the manager-level calls, CREATE USER u again, REVOKE KEY again, SHOW PERMISSIONS), then u tries every
+    authentication form; then a restart on the same directories (auth WAL replay) and u tries again."""
+    h = Hist(f"revadm{idx}", "revadm")
+    T = ["ta", "tb"]
+    setup_types(h, T, 'k: "int", s: "string"')
+    ops = ["grant_r", "grant_w", "grant_rw_multi", "revoke_r", "revoke_w", "revoke_multi", "mgr_grant", "mgr_revoke",
+           "create_again", "revkey_again", "showperm", "grant_then_revoke", "none"]
+    if tier == "quick":
+        chosen = ops[:]
+    else:
+        chosen = ops + [rng.choice(ops) for _ in range(20)]
+    users = []
+    st_v = 'STORE ta FOR c1 PAYLOAD {"k":1,"s":"v"}'
+    h.mk(f"ctl{idx}", "key-ctl", ["editor"])
+
+    def tries(u, key, c_old, tag, ok=False, tokens=()):
+        st = f'STORE ta FOR c1 PAYLOAD {{"k":{rng.below(1000)},"s":"v"}}'
+        cred = {"valid": ok, "user": u}
+        h.active(u)
+        h.tcp(f"n{u}{len(h.cases)}", f"{u}:{sign(key, st)}:{st}", d_st("ta"), st, cred, note=f"inline signature {tag}")
+        if c_old:
+            h.tcp(c_old, f"{sign(key, st)}:{st}", d_st("ta"), st, cred, note=f"connection-scoped signature on the old connection {tag}")
+        h.tcp(f"a{u}{len(h.cases)}", f"AUTH {u}:{sign(key, u)}", "bad", "", {"valid": ok, "user": u, "auth": True}, note=f"AUTH {tag}")
+        for tk in tokens:
+            h.tcp(f"t{u}{len(h.cases)}", f"{st} TOKEN @{{{tk}}}", d_st("ta"), st, cred, note=f"session token issued earlier {tag}")
+            h.add(f"auth_tok_check {hx('@{' + tk + '}')}", op="tokcheck", live=ok, u=u if ok else None,
+                  show=f"validate_session_token(token of {u}) {tag}")
+        h.unix(f"{u}:{sign(key, st)}:{st}", d_st("ta"), st, cred, note=f"unix inline {tag}")
+        h.http(u, sign(key, st), st, d_st("ta"), st, cred, note=f"http header {tag}")
+        h.http(None, None, f"{u}:{sign(key, st)}:{st}", d_st("ta"), st, cred, note=f"http inline {tag}")
+
+    for n, op in enumerate(chosen):
+        u, key = f"ra{idx}x{n}", f"key-ra{idx}x{n}"
+        roles = rng.choice([["editor"], ["write-only"], [], ["admin"], ["read-only", "write-only"]])
+        h.mk(u, key, roles)
+        if not (set(roles) & {"editor", "write-only", "admin"}) or rng.chance(1, 2):
+            h.cmd(ADMIN, d_gr(1, 1, ["ta"], u), f"GRANT READ, WRITE ON ta TO {u}")
+        c_old, tok = f"o{n}", f"tk{n}"
+        h.tcp(c_old, f"AUTH {u}:{sign(key, u)}", "bad", "", {"valid": True, "user": u, "auth": True}, note="AUTH while active")
+        h.add(f"auth_tok_new {tok} {hx(u)}", op="toknew", u=u)
+        tries(u, key, c_old, "while active", ok=True, tokens=(tok,))
+        # the key is revoked ...
+        if rng.chance(1, 2):
+            h.cmd(ADMIN, "rvk:" + hx(u), f"REVOKE KEY {u}")
+        else:
+            h.revkey(u)
+        tries(u, key, c_old, "right after REVOKE KEY", tokens=(tok, f"auth:{c_old}"))
+        # ... and then somebody administers the dead account
+        if op == "grant_r":
+            h.cmd(ADMIN, d_gr(1, 0, ["ta"], u), f"GRANT READ ON ta TO {u}")
+        elif op == "grant_w":
+            h.cmd(ADMIN, d_gr(0, 1, ["tb"], u), f"GRANT WRITE ON tb TO {u}")
+        elif op == "grant_rw_multi":
+            h.cmd(ADMIN, d_gr(1, 1, ["tb", "ta"], u), f"GRANT READ, WRITE ON tb, ta TO {u}")
+        elif op == "revoke_r":
+            h.cmd(ADMIN, d_rv(1, 0, ["ta"], u), f"REVOKE READ ON ta FROM {u}")
+        elif op == "revoke_w":
+            h.cmd(ADMIN, d_rv(0, 1, ["ta"], u), f"REVOKE WRITE ON ta FROM {u}")
+        elif op == "revoke_multi":
+            h.cmd(ADMIN, d_rv(1, 1, ["ta", "tb"], u), f"REVOKE READ, WRITE ON ta, tb FROM {u}")
+        elif op == "mgr_grant":
+            h.grant(u, "ta", 1, 1)
+        elif op == "mgr_revoke":
+            h.revoke(u, "ta")
+        elif op == "create_again":
+            h.cmd(ADMIN, d_mku(u, key, ["admin"]), f'CREATE USER {u} WITH KEY "{key}" WITH ROLES ["admin"]', note="CREATE USER of a revoked id")
+            h.add(f"auth_mk {hx(u)} {hx('other-key')} {hl(['admin'])}", op="mkdup", u=u, roles=["admin"], show=f"create_user_with_roles({u!r}) again after REVOKE KEY")
+        elif op == "revkey_again":
+            h.cmd(ADMIN, "rvk:" + hx(u), f"REVOKE KEY {u}")
+        elif op == "showperm":
+            h.cmd(ADMIN, "shp:" + hx(u), f"SHOW PERMISSIONS FOR {u}")
+        elif op == "grant_then_revoke":
+            h.cmd(ADMIN, d_gr(1, 1, ["ta"], u), f"GRANT READ, WRITE ON ta TO {u}")
+            h.cmd(ADMIN, d_rv(0, 1, ["ta"], u), f"REVOKE WRITE ON ta FROM {u}")
+        h.add(f"auth_tok_new {tok}b {hx(u)}", op="toknew", u=u)      # a session minted for the dead account
+        tries(u, key, c_old, f"after REVOKE KEY and then {op}", tokens=(tok, f"{tok}b", f"auth:{c_old}"))
+        h.perms(u)
+        users.append((u, key, op))
+    ctl = f"ctl{idx}"
+    h.unix(f"{ctl}:{sign('key-ctl', st_v)}:{st_v}", d_st("ta"), st_v, {"valid": True, "user": ctl}, note="control user")
+    # restart on the same directories: the auth WAL replay must not resurrect anybody
+    h.add("auth_restart", op="restart", show="process restart on the same directories (auth WAL replay)")
+    h.unix(f"{ctl}:{sign('key-ctl', st_v)}:{st_v}", d_st("ta"), st_v, {"valid": True, "user": ctl}, note="control user after the restart")
+    for u, key, op in users:
+        tries(u, key, None, f"after the restart (REVOKE KEY, then {op}, then restart)")
+    # and once more after another permission change + restart
+    for u, key, op in users[:4]:
+        h.cmd(ADMIN, d_gr(1, 1, ["ta"], u), f"GRANT READ, WRITE ON ta TO {u}")
+    h.add("auth_restart", op="restart", show="second restart")
+    for u, key, op in users[:4]:
+        tries(u, key, None, "after GRANT on the dead account and a second restart")
+    return h
+
+
 def gen_restart(rng, tier, idx):
     h = Hist(f"restart{idx}", "restart")
     setup_types(h, ["ta"])
@@ -835,6 +939,8 @@ def cases(rng, tier):
         hs.append(gen_multi(rng.fork(f"multi{i}"), tier, i))
     for i in range(2 if q else 8):
         hs.append(gen_rolerev(rng.fork(f"rolerev{i}"), tier, i))
+    for i in range(2 if q else 8):
+        hs.append(gen_revadm(rng.fork(f"revadm{i}"), tier, i))
     out = []
     for h in hs:
         out += h.cases
@@ -1172,6 +1278,8 @@ def judge_command(pol, who, desc, status, out, injected=False):
     why = None
     if kind == "mku" and status == "200" and a["u"] in RESERVED:
         return f"an account was created under the reserved id {a['u']!r}"
+    if kind == "mku" and status == "200" and a["u"] in pol.users:
+        return f"CREATE USER replaced the existing account {a['u']!r}" + ("" if pol.users[a["u"]]["active"] else " whose key had been revoked")
     # dispatch_command(.., Some("bypass")) is the contract of bypass_auth mode; since 139a8cf no account and no
     # gate can produce that identity (gate lines with it are judged as invalid credentials), so an injected
     # "bypass" is judged only if such an account nevertheless exists.
@@ -1335,6 +1443,9 @@ def judge_history(full, outs):
                         why = f"{word} on {t!r} was revoked from {u!r} but can_{'read' if p == 'r' else 'write'} still holds; roles {sorted(pol.users[u]['roles'])}"
                     elif f.get(p) == "0" and pol.must_allow(u, t, p):
                         why = f"{u!r} holds {word} on {t!r} (explicit grant, or role with no entry) but can_{'read' if p == 'r' else 'write'} is false; roles {sorted(pol.users[u]['roles'])}"
+        elif op == "active":
+            if out == "A 1" and c["u"] in pol.users and not pol.users[c["u"]]["active"]:
+                why = f"account {c['u']!r} is listed as active although its key was revoked (REVOKE KEY answered 200 / OK) and no new key was issued"
         elif op == "perms":
             if out.startswith("PT ") and c["u"] in pol.users:
                 why = judge_table(pol, c["u"], perm_table(out[3:]), "get_permissions")
